@@ -848,6 +848,38 @@ func (w *sessWorld) checkPins() {
 	}
 }
 
+// attribute (debugging aid) finds the generated message the bytes belong to.
+func (w *sessWorld) attribute(b []byte) string {
+	if len(b) < 6 {
+		return "too short"
+	}
+	for st := 0; st < 8; st++ {
+		for dir := 0; dir < 2; dir++ {
+			for msg := 0; msg < 5000; msg++ {
+				if msg > 12 && msg < 4990 {
+					continue
+				}
+				for j := 0; j < 140000; j++ {
+					if genByte(st, dir, msg, j) != b[0] {
+						continue
+					}
+					ok := true
+					for k := 1; k < len(b); k++ {
+						if genByte(st, dir, msg, j+k) != b[k] {
+							ok = false
+							break
+						}
+					}
+					if ok {
+						return fmt.Sprintf("stream %d dir %d msg %d offset %d", st, dir, msg, j)
+					}
+				}
+			}
+		}
+	}
+	return "nothing generated by this run"
+}
+
 func firstDiff(a, b []byte) int {
 	for i := range a {
 		if i >= len(b) || a[i] != b[i] {
@@ -1859,7 +1891,19 @@ func (w *sessWorld) readOp(ss *sessStream, dir int, op rOp) (stop bool) {
 	}
 	if !okData && w.on("C06", "C07", "C20") {
 		exp := d.m.expectedNext(len(got))
-		w.failTagged(w.dataRule(), w.ctxTags(ss, dir), "stream %d dir %d: %s(%d) returned bytes that are not the next bytes the peer flushed on this stream (first difference at byte %d of %d, absolute position %d)", ss.idx, dir, op.K, n, firstDiff(got, exp), len(got), d.consumed)
+		fd := firstDiff(got, exp)
+		if os.Getenv("VSIM_DEBUG_BYTES") != "" && fd >= 0 {
+			hi := fd + 12
+			if hi > len(got) {
+				hi = len(got)
+			}
+			eh := hi
+			if eh > len(exp) {
+				eh = len(exp)
+			}
+			fmt.Fprintf(os.Stderr, "DEBUG wrong bytes: got[%d:%d]=%x want=%x attribution=%s\n", fd, hi, got[fd:hi], exp[fd:eh], w.attribute(got[fd:hi]))
+		}
+		w.failTagged(w.dataRule(), w.ctxTags(ss, dir), "stream %d dir %d: %s(%d) returned bytes that are not the next bytes the peer flushed on this stream (first difference at byte %d of %d, absolute position %d)", ss.idx, dir, op.K, n, fd, len(got), d.consumed)
 		return true
 	}
 	if zc && cnt > 0 {
